@@ -95,7 +95,7 @@ type SpawnInfo struct {
 // BlockInfo records a blocking operation with its context (also used by E5/GOX).
 type BlockInfo struct {
 	Func, Op, Pos, Root string
-	Held             []string
+	Held                []string
 }
 
 func NewSim(p *Prog, t *Tables) (*Sim, error) {
@@ -494,10 +494,10 @@ func (s *Sim) applyPhis(fr *Frame, b, pred *ssa.BasicBlock, st *State) {
 		return
 	}
 	type upd struct {
-		v       ssa.Value
-		b, bk   bool
-		n, nk   bool
-		sg      uint8
+		v     ssa.Value
+		b, bk bool
+		n, nk bool
+		sg    uint8
 	}
 	var us []upd
 	for _, in := range b.Instrs {
@@ -760,46 +760,56 @@ func (s *Sim) signCompare(fr *Frame, x *ssa.BinOp) (key string, tset, fset uint8
 	}
 	key = ov.Key()
 	const neg, zero, pos = 1, 2, 4
-	switch {
-	case cv == 0:
-		switch op {
-		case token.LSS:
+	// integers: x < c is x <= c-1, x > c is x >= c+1
+	switch op {
+	case token.LSS:
+		op, cv = token.LEQ, cv-1
+	case token.GTR:
+		op, cv = token.GEQ, cv+1
+	}
+	switch op {
+	case token.LEQ:
+		switch {
+		case cv == -1:
 			tset, fset = neg, zero|pos
-		case token.LEQ:
+		case cv == 0:
 			tset, fset = neg|zero, pos
-		case token.GTR:
-			tset, fset = pos, neg|zero
-		case token.GEQ:
-			tset, fset = zero|pos, neg
-		case token.EQL:
-			tset, fset = zero, neg|pos
-		case token.NEQ:
-			tset, fset = neg|pos, zero
+		case cv < -1:
+			tset, fset = neg, 7
 		default:
-			return
+			tset, fset = 7, pos
 		}
-	case cv > 0:
-		switch op {
-		case token.GTR, token.GEQ, token.EQL:
+	case token.GEQ:
+		switch {
+		case cv == 1:
+			tset, fset = pos, neg|zero
+		case cv == 0:
+			tset, fset = zero|pos, neg
+		case cv > 1:
 			tset, fset = pos, 7
-		case token.LSS, token.LEQ:
-			tset, fset = 7, pos
-		case token.NEQ:
+		default:
+			tset, fset = 7, neg
+		}
+	case token.EQL:
+		switch {
+		case cv == 0:
+			tset, fset = zero, neg|pos
+		case cv > 0:
+			tset, fset = pos, 7
+		default:
+			tset, fset = neg, 7
+		}
+	case token.NEQ:
+		switch {
+		case cv == 0:
+			tset, fset = neg|pos, zero
+		case cv > 0:
 			tset, fset = 7, pos
 		default:
-			return
+			tset, fset = 7, neg
 		}
 	default:
-		switch op {
-		case token.LSS, token.LEQ, token.EQL:
-			tset, fset = neg, 7
-		case token.GTR, token.GEQ:
-			tset, fset = 7, neg
-		case token.NEQ:
-			tset, fset = 7, neg
-		default:
-			return
-		}
+		return
 	}
 	return key, tset, fset, true
 }
